@@ -75,9 +75,13 @@ def check(rep, tier, seed):
         total, nb = sum(fi["Ns"]), len(fi["data"])
         hx = fi["data"].hex()
         for kind in (0, 1, 2, 4, 5):
-            for k in ([0] if kind == 0 else list(range(1, 40)) + [rng.range(40, 200) for _ in range(6)]):
+            # every callback index of the open for read errors on chained files (the open of a chained
+            # file issues ~10-30 callbacks per link); sampled beyond
+            full = 130 if (kind in (1, 2) and len(fi["Ns"]) >= 2) else 40
+            for k in ([0] if kind == 0 else list(range(1, full)) + [rng.range(full, 300) for _ in range(6)]):
                 ops = "rf:4096 ps:%d rf:10 pp:%d rs:%d pl:%d hr:1 ts:0.01 rf:5" % (rng.below(total + 1), rng.below(total + 1), rng.below(nb + 1), rng.below(total + 1))
-                lines.append("vf %d %d %d %d %s %s" % (1 if rng.chance(5, 6) else 0, kind, rng.below(2), k, hx, ops))
+                # read-callback chunking: with 1..255-byte reads every stage of the open has to call back
+                lines.append("vf %d:%d %d %d %d %s %s" % (1 if rng.chance(5, 6) else 0, rng.choice([0, 0, 1, 7, 64, 255, 2047]), kind, rng.below(2), k, hx, ops))
                 nvf += 1
         for _ in range(10 if tier == "quick" else 60):
             d = mutate.mutate(rng, fi["data"])
